@@ -1,5 +1,6 @@
 import Jap.Core.ClassPath
 import Jap.Lemmas.ClassPath
+import Jap.Gen.ClassPathTables
 /-!
 # C14 — A class_path is checked against the declared type and built from its config
 
@@ -25,6 +26,19 @@ C14-stale-dict-kwargs).
 -/
 namespace Jap.Props.C14
 open Jap.ClassPath
+
+/-! ## the literals of `_typehints.py` the model is written against (regenerated from the source on every run) -/
+
+/-- a dict is a class spec (`Val.spec`) when its keys are among these; any other dict is `Val.bare`; a dotted sub-option
+    is rooted at `init_args` unless it starts with `dict_kwargs.` -/
+theorem C14_tables_pinned :
+    Jap.Gen.subclassSpecKeys = ["__path__", "class_path", "dict_kwargs", "init_args"]
+    ∧ Jap.Gen.nestedArgRoots = [".", "class_path", "dict_kwargs", "dict_kwargs.", "init_args"]
+    -- `coerceScalar` accepts exactly the (declared, given) pairs the live adapter accepts, with the same result kind
+    ∧ (["int", "float", "bool", "str"].all fun d => ["int", "float", "bool", "str"].all fun g =>
+        (match coerceScalar d (.lit g "1") with
+         | some (.lit r _) => Jap.Gen.scalarCoercions.contains (d, g, r)
+         | _ => !(Jap.Gen.scalarCoercions.any fun row => row.1 == d && row.2.1 == g))) = true := by decide
 
 /-! ## accepted values are checked -/
 
@@ -216,12 +230,13 @@ theorem C14_rejects_unknown_init_arg (E : ClassEnv) (fuel : Nat) (base : String)
   · rename_i ia heq
     exact absurd heq (hne _ _)
 
-/-- an init arg of a scalar parameter of the named class that is not a literal of the declared type -/
+/-- an init arg of a scalar parameter of the named class that the declared type does not accept (`coerceScalar`: only a
+    literal of that type, or an int for a float) -/
 theorem C14_rejects_ill_typed_init_arg (E : ClassEnv) (fuel : Nat) (base : String) (prev : Option Val) (raw : Val)
     (cp0 path cp : String) (params : List IParam) (ia0 dk0 : KV)
     (h1 : asNamespace (prevCpOf E base prev) raw = .ok (cp0, ia0, dk0)) (h2 : resolveName E base cp0 = .ok path)
     (h3 : checkImport E base path = .ok (cp, params))
-    (hbad : ∃ e ∈ ia0, ∃ p t, findParam params e.1 = some p ∧ p.ty = .scalar t ∧ ¬ ∃ tok, e.2 = .lit t tok) :
+    (hbad : ∃ e ∈ ia0, ∃ p t, findParam params e.1 = some p ∧ p.ty = .scalar t ∧ coerceScalar t e.2 = none) :
     ∃ err, adapt E (fuel + 1) base prev raw = .error err := by
   obtain ⟨e, he, p, t, hp, hty, hb⟩ := hbad
   have hne : ∀ acc ia, mergeArgs (adapt E fuel) params
@@ -272,6 +287,12 @@ theorem C14_built_root (cp : String) (ia dk : KV) :
   · simp only [h1, List.nil_append, h2]
 
 /-- children strictly before parents: every object passed to the `j`-th constructor call was built by a call `i < j` -/
+theorem C14_built_children_first (v : Val) : Backward (instantiate v) := by
+  obtain ⟨_, _, _, h3, _⟩ := inst_spec v [] (by intro j hj; cases hj)
+  exact h3
+
+/-- scalars are passed as they are; a nested spec is passed as the object of its own (last) constructor call, which is a
+    call of exactly the class the nested spec names -/
 theorem C14_built_child (k cp : String) (ia dk rest : KV) (log : List Ctor) :
     ∃ i, (instArgs ((k, .spec (some cp) ia dk) :: rest) log).2.head? = some (k, Arg.obj i)
       ∧ ((instArgs ((k, .spec (some cp) ia dk) :: rest) log).1[i]?).map (·.target) = some cp := by
@@ -286,14 +307,6 @@ theorem C14_built_scalar (k ty tok : String) (rest : KV) (log : List Ctor) :
   simp [instArgs, inst]
 
 /-! ## short notations -/
-
-/-- `adapt` sees the given value only through `subclass_spec_as_namespace` -/
-theorem adapt_congr (E : ClassEnv) (fuel : Nat) (base : String) (prev : Option Val) (raw1 raw2 : Val)
-    (h : ∀ pc, asNamespace pc raw1 = asNamespace pc raw2) :
-    adapt E fuel base prev raw1 = adapt E fuel base prev raw2 := by
-  cases fuel with
-  | zero => rfl
-  | succ n => simp only [adapt, h]
 
 /-- `--opt=Name` is `--opt {"class_path": "Name"}` -/
 theorem C14_short_name (E : ClassEnv) (fuel : Nat) (base : String) (prev : Option Val) (name : String) :
@@ -325,29 +338,6 @@ theorem C14_short_dotted_deep (E : ClassEnv) (fuel : Nat) (base : String) (prev 
   simp only [asNamespace]
   split <;> simp_all
 
-theorem resolveName_idem (E : ClassEnv) (base cp0 path : String) (hdot : ∀ c ∈ E.classes, isDotted c.path = true)
-    (h : resolveName E base cp0 = .ok path) : resolveName E base path = .ok path := by
-  unfold resolveName at h
-  split at h
-  · cases h
-    rename_i hd
-    simp [resolveName, hd]
-  · rename_i hnd
-    split at h
-    · cases h
-      rename_i hc
-      simp only [resolveName, hnd, hc]
-      rfl
-    · rename_i p hc
-      cases h
-      have hm : path ∈ ((E.classes.filter (fun c => !c.abstract && c.name == cp0 && isSubclass E c.path base)).map (·.path)).eraseDups := by
-        rw [hc]; exact List.mem_singleton.mpr rfl
-      rw [List.mem_eraseDups] at hm
-      obtain ⟨c, hcm, rfl⟩ := List.mem_map.mp hm
-      have := hdot c (List.mem_filter.mp hcm).1
-      simp [resolveName, this]
-    · cases h
-
 /-- GENERAL form: whatever the notation, adapting the explicit dict `{class_path: <resolved path>, init_args, dict_kwargs}`
     that `shortToExplicit` computes gives exactly the same result (import paths of classes contain a dot) -/
 theorem C14_short (E : ClassEnv) (fuel : Nat) (base : String) (prev : Option Val) (raw ex : Val)
@@ -371,7 +361,7 @@ theorem C14_short (E : ClassEnv) (fuel : Nat) (base : String) (prev : Option Val
 
 /-! ## `SigDetermined` holds in every environment whose imports are classes -/
 
-theorem sigDetermined_of_classes (E : ClassEnv) (base : String)
+theorem C14_sig_determined_of_classes (E : ClassEnv) (base : String)
     (h : ∀ path p r ps, importOf E path ≠ some (.func p r ps)) : SigDetermined E base := by
   intro p1 p2 cp ps1 ps2 h1 h2 ia hv
   rcases C14_checked_import E base p1 cp ps1 h1 with ⟨d1, _, _, hl1, rfl⟩ | ⟨ret, hi, _⟩
@@ -438,7 +428,7 @@ example :
        ⟨"m.Owner", [("dep", .obj 0), ("n", .lit "int" "0")], []⟩] := by decide
 
 example : SigDetermined exE "m.Base" := by
-  apply sigDetermined_of_classes
+  apply C14_sig_determined_of_classes
   intro path p r ps h
   unfold importOf at h
   split at h
